@@ -806,7 +806,12 @@ func resolveTempPhi(phi *ssa.Phi) ssa.Value {
 		}
 		if errPhi == nil {
 			// a helper that answers "a value, or nil for nothing": one value on one exit, nil on the others, and every use
-			// behind a test that the temporary is not nil
+			// behind a test that the temporary is not nil. Not for errors and statuses: there nil is an answer of its own
+			// ("fine"), and an exit that answers nil without having asked is exactly what a rule has to see (a remembered
+			// authorisation, a skipped validation).
+			if phi.Type().String() == "error" || isStatusLike(phi.Type()) {
+				return nil
+			}
 			var val ssa.Value
 			for _, e := range phi.Edges {
 				if NilConst(e) {
